@@ -55,13 +55,15 @@ type verifState struct {
 	starts   map[string]wal.Offset
 	lastDone map[string]wal.Offset
 	started  map[string]bool
+	events   map[string]int
+	lastOff  map[string]wal.Offset
 }
 
 func verifStateFor(db *DB) *verifState {
 	if s, ok := verifStates.Load(db); ok {
 		return s.(*verifState)
 	}
-	s := &verifState{counters: make(map[string]*verifCounters), starts: make(map[string]wal.Offset), lastDone: make(map[string]wal.Offset), started: make(map[string]bool)}
+	s := &verifState{counters: make(map[string]*verifCounters), starts: make(map[string]wal.Offset), lastDone: make(map[string]wal.Offset), started: make(map[string]bool), events: make(map[string]int), lastOff: make(map[string]wal.Offset)}
 	s.cond = sync.NewCond(&s.mx)
 	actual, _ := verifStates.LoadOrStore(db, s)
 	return actual.(*verifState)
@@ -80,6 +82,8 @@ func verifPoint(db *DB, table string, name string, offset wal.Offset) {
 	s := verifStateFor(db)
 	s.mx.Lock()
 	c := s.countersFor(table)
+	s.events[table+"|"+name]++
+	s.lastOff[table+"|"+name] = append(wal.Offset(nil), offset...)
 	switch name {
 	case "wal-read":
 		c.Read++
@@ -210,6 +214,31 @@ func VerifWALProcessingStarted(db *DB, table string) bool {
 	s.mx.Lock()
 	defer s.mx.Unlock()
 	return s.started[table]
+}
+
+// VerifEventCount returns how often the named hook point has been reached for
+// the given table (or stream, or follower id, depending on the point).
+func VerifEventCount(db *DB, table string, name string) int {
+	s := verifStateFor(db)
+	s.mx.Lock()
+	defer s.mx.Unlock()
+	return s.events[table+"|"+name]
+}
+
+// VerifLastOffset returns the offset passed to the named hook point the last
+// time it was reached, or nil.
+func VerifLastOffset(db *DB, table string, name string) wal.Offset {
+	s := verifStateFor(db)
+	s.mx.Lock()
+	defer s.mx.Unlock()
+	o, ok := s.lastOff[table+"|"+name]
+	if !ok {
+		return nil
+	}
+	if o == nil {
+		return wal.Offset{}
+	}
+	return o
 }
 
 // VerifForget drops the hook state kept for a closed DB.
